@@ -43,7 +43,7 @@ THEOREMS = {
 WRITERS = os.path.join(VERIF, "coq", "writers")
 READERS = os.path.join(VERIF, "coq", "readers")
 E2E = os.path.join(VERIF, "coq", "e2e")
-E2E_THEOREMS = ["C01_end_to_end_channels", "C01_written_samples_are_read", "C01_sample_writer_lossless", "C01_end_to_end_samples", "C01_end_to_end_encoder", "C01_end_to_end_sample_writer", "C01_written_metadata_is_read", "C01_end_to_end_nonvacuous"]
+E2E_THEOREMS = ["C01_end_to_end_bytes", "C01_end_to_end_channels", "C01_written_samples_are_read", "C01_sample_writer_lossless", "C01_end_to_end_samples", "C01_end_to_end_encoder", "C01_end_to_end_sample_writer", "C01_written_metadata_is_read", "C01_end_to_end_nonvacuous"]
 E2E_REQUIRES = ["FlacWriters.Meta", "FlacWriters.Params", "FlacWriters.Finalize", "FlacWriters.Writers", "FlacE2E.Bridge", "FlacE2E.E2E", "FlacE2E.Props_E2E"]
 
 
@@ -59,7 +59,7 @@ def proof_stage(chk, pid, theorems=None, requires=None):
             chk, coq_dirs=[BASE, CODEC, WRITERS, READERS, E2E], build_dir=E2E,
             qflags="-Q ../base FlacBase -Q ../codec FlacCodec -Q ../writers FlacWriters -Q ../readers FlacReaders -Q . FlacE2E",
             requires=reqs + E2E_REQUIRES, theorems=E2E_THEOREMS + thms,
-            obligation_files=[(BASE, ["Res.v", "Bits.v", "Crc.v", "Pins.v"]), (CODEC, coq_files()), (E2E, ["Bridge.v", "E2E.v", "Sample.v", "SampleE2E.v", "Success.v", "ChannelE2E.v", "ReadBridge.v", "ReadersE2E.v", "Props_E2E.v"])],
+            obligation_files=[(BASE, ["Res.v", "Bits.v", "Crc.v", "Pins.v"]), (CODEC, coq_files()), (E2E, ["Bridge.v", "E2E.v", "Sample.v", "SampleE2E.v", "Success.v", "ChannelE2E.v", "ByteE2E.v", "ReadBridge.v", "ReadersE2E.v", "Props_E2E.v"])],
             gen_steps=gen)
     return vlib.proof_stage(
         chk, coq_dirs=[BASE, CODEC], build_dir=CODEC, qflags="-Q ../base FlacBase -Q . FlacCodec",
